@@ -62,7 +62,7 @@ func isStoreVal(target, val string) func(Site) bool {
 }
 
 func propC04(c *Ctx) {
-	c.Explanation = "Decides structural necessary conditions of window/MSS discipline for all inputs: (N1) the window field written by sendTCP is a lossless conversion: the receive window is clamped to 0xffff before uint16() (interval analysis); (N2) the advertised right edge rcvAcc moves only forward: its only store outside the constructor is guarded by rcvAcc.LessThan(new) and stores exactly that new value, and the advertisement is (rcvAcc-rcvNxt) >> rcvWndScale; (N3) maxPayloadSize only shrinks, is at least 1, and is computed as MTU - TCP header - the largest option block the stack can send (timestamps and maximum SACK blocks) - so a full segment with options never exceeds the MTU; (N4) the peer's window is scaled before the sender sees it: in handleSegments `s.window <<= sndWndScale` precedes both handleRcvdSegment calls on the ACK branch, and the sender copies seg.window into sndWnd; (N5) sendData sends data only when the segment starts before sndUna+sndWnd, and splits exactly at min(room in the window, maxPayloadSize) (site table shared with C01); (N6) acceptable() computes RFC 793's acceptability table over sequence-space primitives; in-window data is delivered (C01/R3); zero-window detection compares (rcvBufSize-rcvBufUsed)>>scale with 0. (N8) the receive window scale in force is 0 exactly when the peer's SYN carried no window-scale option (recorded as -1) and the announced shift otherwise - a peer shift of 0 still enables scaling - and the established receiver takes exactly that value. (N7) zero-window handling: the immediate window update after the application reads is sent exactly when the SCALED window last advertised ((rcvAcc-rcvNxt) >> rcvWndScale, the expression getSendParams returns) was zero; Read notifies the worker exactly when the scaled free space was zero before the bytes left the buffer and is non-zero afterwards; the worker calls nonZeroWindow on that notification bit. (N6s) the window primitives acceptable and sendData are written in (InWindow, Overlap, Add, Size, LessThanEq) equal their definitions for all operands (evaluator shared with C14/S1). (N3m) the MTU chain (link MTU - network header, capped; header room), FindWndScale and the SYN-cookie MSS encoder (largest table entry not above the peer's MSS). (N9) the TCP window, sequence and acknowledgement fields are read from exactly the RFC 793 bits (shared with C15/B1). (N10) a smaller path MTU lowers the payload size, corrects the in-flight count, resumes at the first oversized segment and sends; (N11) the window update travels with the ACK sent at the end of every batch that advanced rcvNxt. (N12) the first send window is the peer's window, scaled only when it did not come in a SYN (shared with C03/H3). NOT decided: the inequality 'bytes in flight <= offered window' over histories of ACKs (needs the sizes of heap-allocated views across calls); the arithmetic of the primitives is C14."
+	c.Explanation = "Decides structural necessary conditions of window/MSS discipline for all inputs: (N1) the window field written by sendTCP is a lossless conversion: the receive window is clamped to 0xffff before uint16() (interval analysis); (N2) the advertised right edge rcvAcc moves only forward: its only store outside the constructor is guarded by rcvAcc.LessThan(new) and stores exactly that new value, and the advertisement is (rcvAcc-rcvNxt) >> rcvWndScale; (N3) maxPayloadSize only shrinks, is at least 1, and is computed as MTU - TCP header - the largest option block the stack can send (timestamps and maximum SACK blocks) - so a full segment with options never exceeds the MTU; (N4) the peer's window is scaled before the sender sees it: in handleSegments `s.window <<= sndWndScale` precedes both handleRcvdSegment calls on the ACK branch, and the sender copies seg.window into sndWnd; (N5) sendData sends data only when the segment starts before sndUna+sndWnd, and splits exactly at min(room in the window, maxPayloadSize) (site table shared with C01); (N6) acceptable() computes RFC 793's acceptability table over sequence-space primitives; in-window data is delivered (C01/R3); zero-window detection compares (rcvBufSize-rcvBufUsed)>>scale with 0. (N8) the receive window scale in force is 0 exactly when the peer's SYN carried no window-scale option (recorded as -1) and the announced shift otherwise - a peer shift of 0 still enables scaling - and the established receiver takes exactly that value. (N7) zero-window handling: the immediate window update after the application reads is sent exactly when the SCALED window last advertised ((rcvAcc-rcvNxt) >> rcvWndScale, the expression getSendParams returns) was zero; Read notifies the worker exactly when the scaled free space was zero before the bytes left the buffer and is non-zero afterwards; the worker calls nonZeroWindow on that notification bit. (N6s) the window primitives acceptable and sendData are written in (InWindow, Overlap, Add, Size, LessThanEq) equal their definitions for all operands (evaluator shared with C14/S1). (N3m) the MTU chain (link MTU - network header, capped; header room), FindWndScale and the SYN-cookie MSS encoder (largest table entry not above the peer's MSS). (N9) the TCP window, sequence and acknowledgement fields are read from exactly the RFC 793 bits (shared with C15/B1). (N10) a smaller path MTU lowers the payload size, corrects the in-flight count, resumes at the first oversized segment and sends; (N11) the window update travels with the ACK sent at the end of every batch that advanced rcvNxt. (N12) the first send window is the peer's window, scaled only when it did not come in a SYN (shared with C03/H3). (N13) a path MTU reported by ICMP reaches updateMaxPayloadSize as the IP payload room: the next-hop MTU passes through the network layer's calculateMTU exactly once (handleICMP) and is handed on unchanged by handleControl, NIC, demuxer and endpoint; the endpoint keeps the smallest value and the worker hands exactly that value and the loss count to the sender. (N14) the peer's SYN options are what ParseSynOptions read from the segment's own option bytes and are handed on unchanged. NOT decided: the inequality 'bytes in flight <= offered window' over histories of ACKs (needs the sizes of heap-allocated views across calls); the arithmetic of the primitives is C14."
 	an := NewAbsint(c.P)
 	n9 := c.Rule("N9", "K9 bitprov (shared with C15/B1)", "the TCP window, sequence and acknowledgement fields are read from exactly the RFC 793 bits", 3)
 	c.fieldAccessorLayouts(n9, &bitprov{p: c.P}, func(f fieldLayout) bool {
@@ -161,39 +161,23 @@ func propC04(c *Ctx) {
 	}
 
 	n6 := c.Rule("N6", "K9 path table", "acceptability test (RFC 793 p.26)", 3)
-	if fn := c.Fn(n6, "(*tcp.receiver).acceptable"); fn != nil {
-		ps, es := WalkPaths(fn, 32)
-		if es != "" {
-			c.Bad(n6, FuncName(fn)+"/undecided", c.P.Pos(fn.Pos()), es)
-		}
-		wnd := "seqnum.Value.Size($0.rcvNxt, $0.rcvAcc)"
-		want := []string{
-			"[(0 == " + wnd + ") && !($2 == 0)] => return false",
-			"[(0 == " + wnd + ") && ($2 == 0)] => return ($0.rcvNxt == $1)",
-			"[!(0 == " + wnd + ") && seqnum.Value.InWindow($1, $0.rcvNxt, " + wnd + ")] => return true",
-			"[!(0 == " + wnd + ") && !seqnum.Value.InWindow($1, $0.rcvNxt, " + wnd + ")] => return seqnum.Overlap($0.rcvNxt, " + wnd + ", $1, $2)",
-		}
-		// rows are compared in canonical form (canon.go)
-		got := map[string]bool{}
-		for _, l := range FormatPaths(ps, false) {
-			got[canonRow(l)] = true
-		}
-		for i := range want {
-			want[i] = canonRow(want[i])
-		}
-		for i, w := range want {
-			c.Check(got[w], n6, FuncName(fn)+"/row"+itoa(i+1), c.P.Pos(fn.Pos()), w, "row missing or altered: "+w)
-			delete(got, w)
-		}
-		for g := range got {
-			c.Bad(n6, FuncName(fn)+"/extra-row:"+g, c.P.Pos(fn.Pos()), "path outside the acceptability table")
-		}
-	}
+	acceptableRule(c, n6)
 
 	// N6s: the sequence-space primitives the acceptability table and the send
 	// window test are written in (shared evaluator with C14/S1). LessThan is
 	// the reference the composed ones are decided against; its own absolute
 	// definition is C14's subject.
+	pathMTUReportRule(c, c.Rule("N13", "K5 value-flow site tables", "a path MTU reported by ICMP reaches the sender as the IP payload room: through the network layer's calculateMTU exactly once, then unchanged through handleControl, NIC, demuxer and endpoint", 12))
+	n14 := c.Rule("N14", "K7 closed site table", "the peer's SYN options (MSS, window scale, timestamps, SACK-permitted) are what ParseSynOptions read from the segment's own option bytes; the ACK flag decides whether a timestamp echo is expected", 4)
+	if fn := c.Fn(n14, "tcp.parseSynSegmentOptions"); fn != nil {
+		ps := "header.ParseSynOptions($0.options, (*tcp.segment).flagIsSet($0, 16))"
+		c.CheckSites(n14, fn, []SiteSpec{
+			{Kind: "call", Target: "header.ParseSynOptions", Args: []string{"$0.options", "(*tcp.segment).flagIsSet($0, 16)"}, Guards: []string{}, Exact: true, N: 1, Why: "parsed from this segment's option bytes; isAck = the segment's ACK flag"},
+			{Kind: "store", Target: "header.TCPOptions.TSVal", Args: []string{"$0.parsedOptions", ps + ".TSVal"}, Guards: []string{ps + ".TS"}, Exact: true, N: 1, Why: "timestamp value recorded only when the option was present"},
+			{Kind: "store", Target: "header.TCPOptions.TSEcr", Args: []string{"$0.parsedOptions", ps + ".TSEcr"}, Guards: []string{ps + ".TS"}, Exact: true, N: 1, Why: "likewise the echo"},
+			{Kind: "return", Args: []string{ps}, Guards: []string{}, Exact: true, N: 1, Why: "the parsed options are returned unchanged (MSS and window scale reach the handshake as parsed)"},
+		})
+	}
 	// N3m: what "MTU" means on the way to maxPayloadSize
 	n3m := c.Rule("N3m", "K9 site tables (closed)", "the MTU chain: link MTU - network header, capped at 65535; header room = link + network header", 9)
 	c.Returns(n3m, "ipv4.calculateMTU", RetSpec{Args: []string{"(phi{$0 | 65535} - 20)"}, Why: "IPv4 payload room = min(link MTU, 65535) - 20"})
@@ -316,7 +300,7 @@ func propC04(c *Ctx) {
 }
 
 func propC05(c *Ctx) {
-	c.Explanation = "The timing clauses (200 ms, doubling in time, one segment per timeout while the peer is silent, bounds on segments in flight as a function of the ACK history) are about wall-clock behaviour / numeric histories and are timer.enable reprograms the runtime timer whenever the new target is earlier than the programmed one (L6, earlier-target-rearms). (L8) the RTT estimator behind the timeout follows RFC 6298 (and RFC 7323 appendix G with timestamps), retransmitted ranges are never sampled (Karn), the recovery point after a timeout is sndNxt-1 and an idle connection restarts from the initial window; (L9) Reno is the controller unless cubic is asked for by name. (L10) every queued segment, bare ACKs included, counts towards the inbound queue being non-empty, so duplicate ACKs left behind a batch re-arm the worker. NOT decided. Decided (for all inputs): (L1) the constants InitialCwnd = 10, nDupAckThreshold = 3, minRTO = 200ms; (L2) the RTO store discipline: updateRTO's computed value is followed by the clamp to minRTO, a timer expiry stores exactly 2*rto (below the 60 s cap), and the retransmission timer is armed with rto; (L3) the data send loop runs only while outstanding < sndCwnd and counts every data segment sent; (L4) on a retransmission timeout fast recovery is left BEFORE the congestion controller collapses the window, every controller's HandleRTOExpired stores cwnd = 1, outstanding is reset and sending restarts from the head of the write list, in that order; (L5) duplicate-ACK counting: the complete reviewed site table of checkDuplicateAck (a duplicate is an ACK of sndUna with nothing new, same window, no data, while data is outstanding; the third one enters fast recovery after halving ssthresh; partial/complete ACKs during recovery), a true result leads to resendSegment, which retransmits the head of the write list; the NewReno recover point fr.last starts at iss in newSender (RFC 6582 3.2 step 1), is sndNxt-1 on entering/leaving recovery and on a timeout, and is stored nowhere else; (L6) the lazily disabled retransmission timer is a three-state machine (disabled/enabled/orphaned) whose state word is written only by its own four methods with exactly the reviewed transitions: a wake-up while orphaned is consumed into disabled, enable always re-arms the runtime timer when the state is disabled (or the pending wake-up would come too late) and ends enabled, disable orphans an armed timer, expiry is reported only at or after the target, and the runtime timer's callback asserts the waker given to init. (L7) the Reno controller: slow start +acked capped at ssthresh, congestion avoidance +1 per full window, ssthresh = max(flight/2,2), Reno is the default, Update gets (flight before - flight after) outside fast recovery only, sndCwnd is stored only by the reviewed functions; newSender starts with cwnd 10, ssthresh unbounded, RTO 1 s."
+	c.Explanation = "The timing clauses (200 ms, doubling in time, one segment per timeout while the peer is silent, bounds on segments in flight as a function of the ACK history) are about wall-clock behaviour / numeric histories and are timer.enable reprograms the runtime timer whenever the new target is earlier than the programmed one (L6, earlier-target-rearms). (L8) the RTT estimator behind the timeout follows RFC 6298 (and RFC 7323 appendix G with timestamps), retransmitted ranges are never sampled (Karn), the recovery point after a timeout is sndNxt-1 and an idle connection restarts from the initial window; (L9) Reno is the controller unless cubic is asked for by name. (L10) every queued segment, bare ACKs included, counts towards the inbound queue being non-empty, so duplicate ACKs left behind a batch re-arm the worker. L4 also tables Reno's HandleRTOExpired: ssthresh is reduced and the window set to one segment unconditionally. NOT decided. Decided (for all inputs): (L1) the constants InitialCwnd = 10, nDupAckThreshold = 3, minRTO = 200ms; (L2) the RTO store discipline: updateRTO's computed value is followed by the clamp to minRTO, a timer expiry stores exactly 2*rto (below the 60 s cap), and the retransmission timer is armed with rto; (L3) the data send loop runs only while outstanding < sndCwnd and counts every data segment sent; (L4) on a retransmission timeout fast recovery is left BEFORE the congestion controller collapses the window, every controller's HandleRTOExpired stores cwnd = 1, outstanding is reset and sending restarts from the head of the write list, in that order; (L5) duplicate-ACK counting: the complete reviewed site table of checkDuplicateAck (a duplicate is an ACK of sndUna with nothing new, same window, no data, while data is outstanding; the third one enters fast recovery after halving ssthresh; partial/complete ACKs during recovery), a true result leads to resendSegment, which retransmits the head of the write list; the NewReno recover point fr.last starts at iss in newSender (RFC 6582 3.2 step 1), is sndNxt-1 on entering/leaving recovery and on a timeout, and is stored nowhere else; (L6) the lazily disabled retransmission timer is a three-state machine (disabled/enabled/orphaned) whose state word is written only by its own four methods with exactly the reviewed transitions: a wake-up while orphaned is consumed into disabled, enable always re-arms the runtime timer when the state is disabled (or the pending wake-up would come too late) and ends enabled, disable orphans an armed timer, expiry is reported only at or after the target, and the runtime timer's callback asserts the waker given to init. (L7) the Reno controller: slow start +acked capped at ssthresh, congestion avoidance +1 per full window, ssthresh = max(flight/2,2), Reno is the default, Update gets (flight before - flight after) outside fast recovery only, sndCwnd is stored only by the reviewed functions; newSender starts with cwnd 10, ssthresh unbounded, RTO 1 s."
 	l1 := c.Rule("L1", "K12 constants", "RFC 5681 / 6298 constants", 3)
 	for _, k := range []struct{ name, want, what string }{{"InitialCwnd", "10", "initial window of 10 segments"}, {"nDupAckThreshold", "3", "three duplicate ACKs"}, {"minRTO", "200000000", "200 ms RTO floor"}} {
 		v := pkgConst(c.P, "protocol/transport/tcp", k.name)
@@ -342,47 +326,8 @@ func propC05(c *Ctx) {
 		c.Ordered(l2, fn, []string{"rto computed", "rto clamped"}, []func(Site) bool{isStoreVal("tcp.sender.rto", "($0.rtt.srtt@u + ($0.rtt.rttvar@u * 4))"), isStoreVal("tcp.sender.rto", "200000000")})
 	}
 	c.OnlyIn(l2, "store sender.rto", c.FieldStores("tcp.sender", "rto"), "(*tcp.sender).updateRTO", "(*tcp.sender).retransmitTimerExpired", "tcp.newSender")
-	rtx := c.Fn(l2, "(*tcp.sender).retransmitTimerExpired")
-	if rtx != nil {
-		exp := []string{"($0.rto < 60000000000)", "(*tcp.timer).checkExpiration(&$0.resendTimer)"}
-		c.CheckSites(l2, rtx, []SiteSpec{
-			{Kind: "store", Target: "tcp.sender.rto", Args: []string{"$0", "($0.rto * 2)"}, Guards: exp, Exact: true, N: 1, Why: "every expiry doubles the RTO (until the 60 s give-up bound)"},
-		})
-		l4 := c.Rule("L4", "K2 order + K9 siblings", "RTO: leave recovery, collapse cwnd to 1, restart from the head", 6)
-		c.CheckSites(l4, rtx, []SiteSpec{
-			{Kind: "call", Target: "(*tcp.sender).leaveFastRecovery", Args: []string{"$0"}, Guards: append([]string{"$0.fr.active"}, exp...), Exact: true, N: 1, Why: "an RTO during fast recovery first leaves recovery"},
-			{Kind: "call", Target: "iface:tcp.congestionControl.HandleRTOExpired", Args: []string{"$0.cc"}, Guards: exp, Exact: true, N: 1, Why: "then the controller reacts to the loss"},
-			{Kind: "store", Target: "tcp.sender.outstanding", Args: []string{"$0", "0"}, Guards: exp, Exact: true, N: 1, Why: "nothing is considered in flight any more"},
-			{Kind: "store", Target: "tcp.sender.writeNext", Args: []string{"$0", "(*tcp.segmentList).Front(&$0.writeList)"}, Guards: exp, Exact: true, N: 1, Why: "sending restarts from the earliest unacknowledged segment"},
-			{Kind: "call", Target: "(*tcp.sender).sendData", Args: []string{"$0"}, Guards: exp, Exact: true, N: 1, Why: "and sendData retransmits under the collapsed window"},
-		})
-		c.Ordered(l4, rtx, []string{"rto doubled", "leaveFastRecovery", "HandleRTOExpired", "outstanding=0", "writeNext=Front", "sendData"}, []func(Site) bool{
-			isStore("tcp.sender.rto"), isCall("(*tcp.sender).leaveFastRecovery"), isCall("iface:tcp.congestionControl.HandleRTOExpired"), isStoreVal("tcp.sender.outstanding", "0"), isStore("tcp.sender.writeNext"), isCall("(*tcp.sender).sendData")})
-		for _, name := range []string{"(*tcp.renoState).HandleRTOExpired", "(*tcp.cubicState).HandleRTOExpired"} {
-			if fn := c.Fn(l4, name); fn != nil {
-				sts := StoresTo(fn, "tcp.sender", "sndCwnd")
-				ok := len(sts) >= 1
-				for _, st := range sts {
-					if Term(st.Val) != "1" {
-						ok = false
-					}
-				}
-				c.Check(ok, l4, name+"/cwnd=1", c.P.Pos(fn.Pos()), "congestion window collapses to 1 segment", "HandleRTOExpired does not set sndCwnd to exactly 1")
-				// and it is the last word on cwnd in this function
-				for _, st := range sts {
-					bad := ReachAvoiding(fn, st, nil, func(in ssa.Instruction) bool {
-						s2, ok := in.(*ssa.Store)
-						if !ok {
-							return false
-						}
-						fv, _ := fieldOf(s2.Addr)
-						return fv != nil && fv.Name() == "sndCwnd" && s2 != st
-					})
-					c.Check(bad == nil, l4, name+"/cwnd=1-final", c.pos(st), "no later store to sndCwnd", "sndCwnd is overwritten after being set to 1")
-				}
-			}
-		}
-	}
+	l4 := c.Rule("L4", "K2 order + K9 siblings", "RTO: leave recovery, collapse cwnd to 1, restart from the head", 6)
+	rtoExpiryRule(c, l2, l4)
 	l3 := c.Rule("L3", "K1 site table", "send gate outstanding < cwnd", 3)
 	if fn := c.Fn(l3, "(*tcp.sender).sendData"); fn != nil {
 		c.CheckSitesPresent(l3, fn, pick(sendDataTable(), "C05"))
@@ -601,4 +546,158 @@ func timerTypestateRule(c *Ctx, l6 string) {
 		c.Broken(l6, "anchor-unresolved:(*tcp.timer).init$1", "timer callback closure not found")
 	}
 
+}
+
+// rtoExpiryRule: what a genuine expiry of the retransmission timer does, under
+// exactly the expiry/give-up guards and nothing else: double the RTO, leave
+// recovery, collapse the window, restart from the head of the write list and
+// send (sendData re-arms the timer, W3). l2 takes the RTO store, l4 the rest.
+func rtoExpiryRule(c *Ctx, l2, l4 string) {
+	rtx := c.Fn(l2, "(*tcp.sender).retransmitTimerExpired")
+	if rtx == nil {
+		return
+	}
+	exp := []string{"($0.rto < 60000000000)", "(*tcp.timer).checkExpiration(&$0.resendTimer)"}
+	c.CheckSites(l2, rtx, []SiteSpec{
+		{Kind: "store", Target: "tcp.sender.rto", Args: []string{"$0", "($0.rto * 2)"}, Guards: exp, Exact: true, N: 1, Why: "every expiry doubles the RTO (until the 60 s give-up bound)"},
+	})
+	c.CheckSites(l4, rtx, []SiteSpec{
+		{Kind: "call", Target: "(*tcp.sender).leaveFastRecovery", Args: []string{"$0"}, Guards: append([]string{"$0.fr.active"}, exp...), Exact: true, N: 1, Why: "an RTO during fast recovery first leaves recovery"},
+		{Kind: "call", Target: "iface:tcp.congestionControl.HandleRTOExpired", Args: []string{"$0.cc"}, Guards: exp, Exact: true, N: 1, Why: "then the controller reacts to the loss"},
+		{Kind: "store", Target: "tcp.sender.outstanding", Args: []string{"$0", "0"}, Guards: exp, Exact: true, N: 1, Why: "nothing is considered in flight any more"},
+		{Kind: "store", Target: "tcp.sender.writeNext", Args: []string{"$0", "(*tcp.segmentList).Front(&$0.writeList)"}, Guards: exp, Exact: true, N: 1, Why: "sending restarts from the earliest unacknowledged segment"},
+		{Kind: "call", Target: "(*tcp.sender).sendData", Args: []string{"$0"}, Guards: exp, Exact: true, N: 1, Why: "and sendData retransmits under the collapsed window"},
+	})
+	c.Ordered(l4, rtx, []string{"rto doubled", "leaveFastRecovery", "HandleRTOExpired", "outstanding=0", "writeNext=Front", "sendData"}, []func(Site) bool{
+		isStore("tcp.sender.rto"), isCall("(*tcp.sender).leaveFastRecovery"), isCall("iface:tcp.congestionControl.HandleRTOExpired"), isStoreVal("tcp.sender.outstanding", "0"), isStore("tcp.sender.writeNext"), isCall("(*tcp.sender).sendData")})
+	if fn := c.Fn(l4, "(*tcp.renoState).HandleRTOExpired"); fn != nil {
+		c.CheckSites(l4, fn, []SiteSpec{
+			{Kind: "call", Target: "(*tcp.renoState).reduceSlowStartThreshold", Args: []string{"$0"}, Guards: []string{}, Exact: true, N: 1, Why: "every timeout halves ssthresh"},
+			{Kind: "store", Target: "tcp.sender.sndCwnd", Args: []string{"$0.s", "1"}, Guards: []string{}, Exact: true, N: 1, Why: "RFC 5681: after a timeout the window is ONE segment, whatever it was - no condition decides the collapse"},
+		})
+	}
+	for _, name := range []string{"(*tcp.renoState).HandleRTOExpired", "(*tcp.cubicState).HandleRTOExpired"} {
+		if fn := c.Fn(l4, name); fn != nil {
+			sts := StoresTo(fn, "tcp.sender", "sndCwnd")
+			ok := len(sts) >= 1
+			for _, st := range sts {
+				if Term(st.Val) != "1" {
+					ok = false
+				}
+			}
+			c.Check(ok, l4, name+"/cwnd=1", c.P.Pos(fn.Pos()), "congestion window collapses to 1 segment", "HandleRTOExpired does not set sndCwnd to exactly 1")
+			// and it is the last word on cwnd in this function
+			for _, st := range sts {
+				bad := ReachAvoiding(fn, st, nil, func(in ssa.Instruction) bool {
+					s2, ok := in.(*ssa.Store)
+					if !ok {
+						return false
+					}
+					fv, _ := fieldOf(s2.Addr)
+					return fv != nil && fv.Name() == "sndCwnd" && s2 != st
+				})
+				c.Check(bad == nil, l4, name+"/cwnd=1-final", c.pos(st), "no later store to sndCwnd", "sndCwnd is overwritten after being set to 1")
+			}
+		}
+	}
+}
+
+// pathMTUReportRule: the unit of a reported path MTU on its way from the ICMP
+// message to the sender. updateMaxPayloadSize (N3/N10) subtracts the TCP header
+// and options from what it is given, so what it is given must be the room for
+// the IP payload: the next-hop MTU of the message passes through the network
+// layer's own calculateMTU exactly once (in handleICMP) and is handed on
+// unchanged by handleControl, the NIC, the demuxer and the endpoint.
+func pathMTUReportRule(c *Ctx, rule string) {
+	v4 := "buffer.VectorisedView.First($2)"
+	if fn := c.Fn(rule, "(*ipv4.endpoint).handleICMP"); fn != nil {
+		c.CheckSitesPresent(rule, fn, []SiteSpec{
+			{Kind: "call", Target: "(*ipv4.endpoint).handleControl", Args: []string{"$0", "0", "ipv4.calculateMTU(encoding/binary.bigEndian.Uint16(encoding/binary.BigEndian, " + v4 + "[6:]))", "new(buffer.VectorisedView)@2"}, Guards: []string{"(3 == header.ICMPv4.Type(" + v4 + "))", "(4 == header.ICMPv4.Code(" + v4 + "))"}, N: 1, Why: "fragmentation needed: ControlPacketTooBig carries calculateMTU(next-hop MTU from bytes 6..7), i.e. the IPv4 payload room, not the raw link-level figure"},
+		})
+		n := 0
+		for _, s := range Sites(fn) {
+			if s.Kind == "call" && s.Target == "(*ipv4.endpoint).handleControl" && len(s.Args) == 4 && s.Args[1] == "0" {
+				n++
+			}
+		}
+		c.Check(n == 1, rule, FuncName(fn)+"/one-packet-too-big-site", c.P.Pos(fn.Pos()), "one ControlPacketTooBig site", "ControlPacketTooBig is raised at another site as well")
+	}
+	if fn := c.Fn(rule, "(*ipv6.endpoint).handleICMP"); fn != nil {
+		c.CheckSitesPresent(rule, fn, []SiteSpec{
+			{Kind: "call", Target: "(*ipv6.endpoint).handleControl", Args: []string{"$0", "0", "ipv6.calculateMTU(encoding/binary.bigEndian.Uint32(encoding/binary.BigEndian, " + v4 + "[4:]))", "new(buffer.VectorisedView)@2"}, Guards: []string{"(2 == header.ICMPv6.Type(" + v4 + "))"}, N: 1, Why: "packet too big: calculateMTU(MTU field, bytes 4..7) = the IPv6 payload room"},
+		})
+	}
+	for _, t := range []struct{ fn, net string }{{"(*ipv4.endpoint).handleControl", "2048"}, {"(*ipv6.endpoint).handleControl", "34525"}} {
+		if fn := c.Fn(rule, t.fn); fn != nil {
+			c.CheckSitesPresent(rule, fn, []SiteSpec{
+				{Kind: "call", Target: "iface:stack.TransportDispatcher.DeliverTransportControlPacket", Args: []string{"$0.dispatcher", "$0.id.LocalAddress", "*", t.net, "*", "$1", "$2", "*"}, N: 1, Why: "control type and extra value are handed on unchanged"},
+			})
+		}
+	}
+	if fn := c.Fn(rule, "(*stack.NIC).DeliverTransportControlPacket"); fn != nil {
+		ok := 0
+		for _, s := range Sites(fn) {
+			if s.Kind == "call" && s.Target == "(*stack.transportDemuxer).deliverControlPacket" {
+				good := len(s.Args) == 7 && s.Args[1] == "$3" && s.Args[2] == "$4" && s.Args[3] == "$5" && s.Args[4] == "$6" && s.Args[5] == "$7"
+				c.Check(good, rule, FuncName(fn)+"/pass-through:"+s.Args[0], c.pos(s.Instr), "protocols, control type, extra and packet handed on unchanged", "the NIC alters the control type or the extra value on the way to the demuxer")
+				ok++
+			}
+		}
+		c.Check(ok == 2, rule, FuncName(fn)+"/two-demuxers", c.P.Pos(fn.Pos()), "NIC demuxer, then stack demuxer", "number of deliverControlPacket calls changed")
+	}
+	if fn := c.Fn(rule, "(*stack.transportDemuxer).deliverControlPacket"); fn != nil {
+		c.CheckSitesPresent(rule, fn, []SiteSpec{
+			{Kind: "call", Target: "iface:stack.TransportEndpoint.HandleControlPacket", Args: []string{"*", "$6", "$3", "$4", "$5"}, N: 1, Why: "the endpoint found gets id, control type, extra and packet unchanged"},
+		})
+	}
+	if fn := c.Fn(rule, "(*tcp.endpoint).HandleControlPacket"); fn != nil {
+		c.CheckSites(rule, fn, []SiteSpec{
+			{Kind: "store", Target: "tcp.endpoint.packetTooBigCount", Args: []string{"$0", "($0.packetTooBigCount + 1)"}, Guards: []string{"($2 == 0)"}, Exact: true, N: 1, Why: "every packet-too-big report counts one lost packet"},
+			{Kind: "store", Target: "tcp.endpoint.sndMTU", Args: []string{"$0", "$3"}, Guards: []string{"($2 == 0)", "($3 < $0.sndMTU)"}, Exact: true, N: 1, Why: "the smallest reported value is kept, unchanged (it only shrinks)"},
+			{Kind: "call", Target: "(*tcp.endpoint).notifyProtocolGoroutine", Args: []string{"$0", "8"}, Guards: []string{"($2 == 0)"}, Exact: true, N: 1, Why: "the worker is told (notifyMTUChanged)"},
+		})
+	}
+	if fn := c.Fn(rule, "(*tcp.endpoint).protocolMainLoop$4"); fn != nil {
+		g := []string{"!(((*tcp.endpoint).fetchNotifications(^$0) & 8) == 0)"}
+		c.CheckSitesPresent(rule, fn, []SiteSpec{
+			{Kind: "call", Target: "(*tcp.sender).updateMaxPayloadSize", Args: []string{"^$0.snd", "^$0.sndMTU", "^$0.packetTooBigCount"}, Guards: g, Exact: true, N: 1, Why: "the sender is given exactly the recorded value and the count read before it was reset"},
+			{Kind: "store", Target: "tcp.endpoint.packetTooBigCount", Args: []string{"^$0", "0"}, Guards: g, Exact: true, N: 1, Why: "the count is consumed"},
+		})
+	}
+}
+
+// acceptableRule: the complete path table of receiver.acceptable (RFC 793 p.26):
+// a segment is acceptable when its first byte is in the window OR any part of it
+// overlaps the window. Shared by C04 (N6) and C02 (a retransmission that
+// starts below rcvNxt but carries new bytes must be consumed, or the peer
+// retransmits for ever).
+func acceptableRule(c *Ctx, rule string) {
+	if fn := c.Fn(rule, "(*tcp.receiver).acceptable"); fn != nil {
+		ps, es := WalkPaths(fn, 32)
+		if es != "" {
+			c.Bad(rule, FuncName(fn)+"/undecided", c.P.Pos(fn.Pos()), es)
+		}
+		wnd := "seqnum.Value.Size($0.rcvNxt, $0.rcvAcc)"
+		want := []string{
+			"[(0 == " + wnd + ") && !($2 == 0)] => return false",
+			"[(0 == " + wnd + ") && ($2 == 0)] => return ($0.rcvNxt == $1)",
+			"[!(0 == " + wnd + ") && seqnum.Value.InWindow($1, $0.rcvNxt, " + wnd + ")] => return true",
+			"[!(0 == " + wnd + ") && !seqnum.Value.InWindow($1, $0.rcvNxt, " + wnd + ")] => return seqnum.Overlap($0.rcvNxt, " + wnd + ", $1, $2)",
+		}
+		// rows are compared in canonical form (canon.go)
+		got := map[string]bool{}
+		for _, l := range FormatPaths(ps, false) {
+			got[canonRow(l)] = true
+		}
+		for i := range want {
+			want[i] = canonRow(want[i])
+		}
+		for i, w := range want {
+			c.Check(got[w], rule, FuncName(fn)+"/row"+itoa(i+1), c.P.Pos(fn.Pos()), w, "row missing or altered: "+w)
+			delete(got, w)
+		}
+		for g := range got {
+			c.Bad(rule, FuncName(fn)+"/extra-row:"+g, c.P.Pos(fn.Pos()), "path outside the acceptability table")
+		}
+	}
 }
